@@ -5,7 +5,7 @@ from .common import Violation
 
 
 def run(ctx, *, go_cmds, lean_targets, prop_file, theorems, trace_targets, corr_runs, search_runs,
-        corr_name, driver_args, assumptions=(), trusted=(), leancheck=True, gates=False, ok_exit=(0,), what='real code', spec='proved specification', const=None):
+        corr_name, driver_args, assumptions=(), trusted=(), leancheck=True, kernel_family=None, gates=False, ok_exit=(0,), what='real code', spec='proved specification', const=None):
     common.go_build(go_cmds)
     common.lake_build(lean_targets + ['driver'])
     common.audit(ctx, prop_file, theorems)
@@ -14,6 +14,8 @@ def run(ctx, *, go_cmds, lean_targets, prop_file, theorems, trace_targets, corr_
     if gates:
         common.gates_tie(ctx)
     tmism = common.trace_tie(ctx, trace_targets) if trace_targets else []
+    if kernel_family:
+        tmism += common.kernel_trace_tie(ctx, kernel_family)
     found = None
     for go_cmd, args in corr_runs:
         n, mism, _ = common.corr(ctx, corr_name, go_cmd, args, driver_args, ok_exit=ok_exit, const=const)
